@@ -576,7 +576,7 @@ class Interp:
         if e.id == "ast":
             return AstModule()
         if e.id in ("isinstance", "len", "getattr", "reduce", "enumerate", "map", "sorted", "list", "tuple", "deepcopy", "any",
-                    "reversed", "str", "set", "id", "hasattr"):
+                    "reversed", "str", "set", "id", "hasattr", "bool"):
             return ("builtin", e.id)
         if e.id in ("re", "sys", "inspect", "types"):
             return ("module", e.id)
@@ -965,6 +965,8 @@ class Interp:
             raise Unsupported(f"{name} of {v!r}")
         if name == "deepcopy":
             return Copy(args[0], self.origin_function())
+        if name == "bool":
+            return self.truth(args[0], e) if args else False
         if name == "str":
             return args[0] if isinstance(args[0], (str, SymStr, Ident)) else Opaque("str(...)")
         if name in ("any", "set", "id"):
